@@ -11,7 +11,10 @@ CMP_NEG = {'Lt': 'Ge', 'Ge': 'Lt', 'Gt': 'Le', 'Le': 'Gt', 'Eq': 'Ne', 'Ne': 'Eq
 
 
 class ExprBuilder:
-    def __init__(self, cfg, max_depth=14):
+    def __init__(self, cfg, max_depth=14, fold_named=False):
+        # fold_named: also fold *named* locals that have a single definition (value provenance
+        # questions only; for guards this could be stale, so it is off by default)
+        self.fold_named = fold_named
         self.cfg = cfg
         self.body = cfg.body
         self.max_depth = max_depth
@@ -25,7 +28,7 @@ class ExprBuilder:
         body = self.body
         l = p.l
         base = None
-        if fold and l > body.arg_count and body.name_of(l) is None and depth < self.max_depth:
+        if fold and l > body.arg_count and (body.name_of(l) is None or self.fold_named) and depth < self.max_depth:
             sd = self.cfg.single_def(l)
             if sd is not None:
                 base = self.local(l, depth + 1)
@@ -53,7 +56,7 @@ class ExprBuilder:
                 if inner[0] == 'place':
                     return inner + tuple(projs[1:])
                 return ('proj', inner) + tuple(projs[1:])
-            if base[0] == 'place':
+            if base[0] in ('place', 'proj'):
                 return base + tuple(projs)
             # (AddWithOverflow(a, b)).0 -> Add(a, b)
             if base[0] == 'bin' and base[1].endswith('WithOverflow') and projs == ['.0']:
